@@ -572,7 +572,7 @@ def plan(ctx):
             ("g222-calls", S(MID, CB, PAT, G222, {"LenPats <- LP6": "LenPats <- LP3", "MaxMissing = 9": "MaxMissing = 1"}), None, 1500),
             ("g331-calls", S(MID, CB, PAT, G331, {"LenPats <- LP6": "LenPats <- LP3", "MaxMissing = 9": "MaxMissing = 1", "Pars <- P4": "Pars <- P2"}), None, 2000),
             # the workspace: copies, re-binding of experiment, a log read back, ==, filters; any object may be the receiver
-            ("g221-objects", S(PAT, OBJ, {"MaxOps = 1": "MaxOps = 2", "LenPats <- LP6": "LenPats <- LP3", "MaxMissing = 9": "MaxMissing = 1", "Pars <- P2": "Pars <- P1"}), None, 2000),
+            ("g221-objects", S(PAT, OBJ, {"MaxOps = 1": "MaxOps = 2", "LenPats <- LP6": "LenPats <- LP3", "MaxMissing = 9": "MaxMissing = 2", "Pars <- P2": "Pars <- P1", "InitExps <- Exp1": "InitExps <- Exp01"}), None, 5000),
             # chains of every call on the larger grids
             ("chains-sim", S(PAT, MID, {"Dims <- D221": "Dims <- DAll", "MaxOps = 1": "MaxOps = 4", "MaxLen = 2": "MaxLen = 3", "Pars <- P2": "Pars <- P4",
                                         "MaxMissing = 9": "MaxMissing = 3", "XOps <- CallsX": "XOps <- AllX", "InitExps <- Exp1": "InitExps <- Exp01"}), dict(num=2), 500),
